@@ -29,8 +29,102 @@ def guard_list(it: Interp):
     return out
 
 
+# ------------------------------------------------------------------ raise-set equivalence (propositional)
+_POS = {"!=": "==", ">=": "<", ">": "<=", "is not": "is", "not in": "in"}
+
+
+def _bool_eval(t, atoms, val):
+    """Truth value of a boolean term under an assignment of its atoms (maximal non-boolean subterms)."""
+    h = t[0]
+    if h == "const":
+        return bool(t[1])
+    if h == "and":
+        return all(_bool_eval(x, atoms, val) for x in t[1])
+    if h == "or":
+        return any(_bool_eval(x, atoms, val) for x in t[1])
+    if h == "not":
+        return not _bool_eval(t[1], atoms, val)
+    if h == "ite":
+        return _bool_eval(t[2], atoms, val) if _bool_eval(t[1], atoms, val) else _bool_eval(t[3], atoms, val)
+    if h == "call" and t[1] in (("ext", "jax.numpy.logical_and"), ("ext", "jax.numpy.logical_or")):
+        xs = list(t[2]) + [v for _, v in t[3]]
+        f = all if t[1][1].endswith("and") else any
+        return f(_bool_eval(x, atoms, val) for x in xs)
+    if h == "call" and t[1] == ("ext", "jax.numpy.logical_not"):
+        xs = list(t[2]) + [v for _, v in t[3]]
+        return not _bool_eval(xs[0], atoms, val)
+    if h == "cmp" and t[1] in _POS:
+        return not _bool_eval(("cmp", _POS[t[1]], t[2], t[3]), atoms, val)
+    k2 = key(t)
+    if k2 not in atoms:
+        atoms[k2] = len(atoms)
+    return bool(val >> atoms[k2] & 1)
+
+
+def _collect_atoms(t, atoms):
+    _bool_eval(t, atoms, 0)
+    # evaluation short-circuits: walk every branch once more with all-ones to reach the remaining atoms
+    n = -1
+    while n != len(atoms):
+        n = len(atoms)
+        for v in (0, (1 << max(len(atoms), 1)) - 1):
+            _bool_eval(t, atoms, v)
+        for i in range(len(atoms)):
+            _bool_eval(t, atoms, 1 << i)
+            _bool_eval(t, atoms, ((1 << len(atoms)) - 1) ^ (1 << i))
+
+
+def raise_condition(it: Interp):
+    """The condition under which evaluation raises at all: OR over guards of (path AND test)."""
+    from ..eqterms import hoist_ite
+    ds = []
+    for g in it.guards:
+        if g[0] not in ("raise-if", "raise-in-loop"):
+            continue
+        conj = tuple(g[4]) + (g[1],) if len(g) > 4 else (g[1],)
+        ds.append(("and", conj) if len(conj) > 1 else conj[0])
+    if not ds:
+        return C(False)
+    from ..eqterms import logic_norm
+    f = hoist_ite(("or", tuple(ds)) if len(ds) > 1 else ds[0])
+    # positive spellings first (a != b is not(a == b)), then the quantifier normal forms (not all <-> any, ...)
+    from ..terms import subst as _subst
+
+    def pos(s2):
+        if s2[0] == "cmp" and s2[1] in _POS:
+            return ("not", ("cmp", _POS[s2[1]], s2[2], s2[3]))
+        return None
+    for _ in range(3):
+        f = _subst(logic_norm(f), pos)
+    return f
+
+
+def same_raise_set(got_it: Interp, want_it: Interp, max_atoms=14) -> bool | None:
+    """True / False when decided by a truth table over the atoms of both conditions, None when too large."""
+    a, b = raise_condition(got_it), raise_condition(want_it)
+    atoms: dict = {}
+    _collect_atoms(a, atoms)
+    _collect_atoms(b, atoms)
+    if len(atoms) > max_atoms:
+        return None
+    for v in range(1 << len(atoms)):
+        if _bool_eval(a, dict(atoms), v) != _bool_eval(b, dict(atoms), v):
+            return False
+    return True
+
+
 def compare_guards(rep, R, site, k, got_it, want_it, what):
     got, want = guard_list(got_it), guard_list(want_it)
+    unmatched = [w for w in want if not [g for g in got if equal(g[0], w[0]) and len(g[2]) == len(w[2])
+                                         and all(equal(a, b) for a, b in zip(g[2], w[2]))]]
+    if unmatched and not [g for g in got_it.guards if g[0] == "raise-in-callback"]:
+        # the guards are spelled differently: compare WHEN the function raises at all (propositionally exact)
+        if same_raise_set(got_it, want_it) is True:
+            for (wc, wh, wp) in want:
+                rep.holds(R, site, f"{k}:raises-if({show(wc, 90)})",
+                          "the implementation raises under exactly the same condition as the reference (truth table "
+                          "over the atomic tests of both guard sets)")
+            return True
     opaque = [(g[1],) for g in got_it.guards if g[0] == "raise-in-callback"]
     ok = True
     for (wc, wh, wp) in want:
@@ -101,7 +195,13 @@ def rule_hook(prog, rep):
         okv = equal(val, want_val)
         want_path = ("and", (("cmp", "in", C(name), ("attr", CLS, "__dict__")),
                              ("not", ("call", ("ext", "builtins.hasattr"), (d, C("__isabstractmethod__")), ()))))
-        okp = len(path) == 1 and equal(path[0], want_path)
+        def conjuncts(ts):
+            out = []
+            for x in ts:
+                out.extend(conjuncts(x[1]) if x[0] == "and" else [x])
+            return out
+        gp, wp2 = conjuncts(path), conjuncts([want_path])
+        okp = len(gp) == len(wp2) and all(any(equal(a, b) for b in wp2) for a in gp)
         rep.check(okv and okp, "C13.hook", site, f"hook:{name}",
                   "setattr(cls, name, _unwrap_check_and_cast(cls.__dict__[name])) when defined and not abstract",
                   f"installation for {name}: value {show(val, 160)} under {[show(p, 160) for p in path]}")
